@@ -1,4 +1,99 @@
-import QclibModel.Model.CnotShape
+import QclibModel.Proofs.CnotUnitary
+import QclibModel.Proofs.CnotCcd
+import QclibModel.Proofs.CnotLowrank
+import QclibModel.Proofs.CnotBits
+/-
+  C10 — CNOT-cost estimates match the circuits actually synthesised.
+  Property theorems only; helper lemmas live in Proofs/Cnot*.lean.
+
+  Every left-hand side is a definition of `Gen/CnotCount.lean`, which is RE-GENERATED from
+  qclib/unitary.py, qclib/isometry.py, qclib/state_preparation/lowrank.py on every run: editing a
+  coefficient, a base case or an index of those Python functions makes these proofs stop compiling.
+  Every right-hand side is the structural count `cnotsOf` / `raw` of `Model/CnotShape.lean`, the
+  recursion shape of the synthesis code with qiskit's per-object CNOT cost (tied to the real circuits
+  and to `transpile` by tools/props/c10.py).
+-/
 namespace Qclib
-theorem C10_stub : True := trivial
+open Qclib.Py Qclib.Cnot Qclib.Gen.CnotCount
+
+/-- **C10 (QSD).** For every number of qubits `n ≥ 1` and both settings of `apply_a2`, the closed form
+`_cnot_count_estimate(U, "qsd", iso=0, apply_a2)` — with A.2 `⌈23/48·4^n − 3/2·2^n + 4/3⌉`, without it
+that plus `4^(n−2) − 1` — equals the structural CNOT count of `build_unitary(U, "qsd")`: two half-size
+`_qsd` pairs (each two recursive blocks and a `UCRZ` of `2^(n−1)` CNOTs) around a `UCRY` with `CZ`
+and no last entangler (`2^(n−1) − 1`), two-qubit blocks at 3 CNOTs, A.2 saving one CNOT on every
+two-qubit block but the last.  (The ceiling is exact: the numerator is `48·count`.) -/
+theorem C10_qsd (n : Nat) (hn : 1 ≤ n) (a2 : Bool) :
+    unitary.cnot_count_estimate ((2 ^ n : Nat) : Int) "qsd" 0 a2 = (unitaryCnots Dec.qsd n 0 a2 : Int) := by
+  rw [est_qsd_all n hn a2]
+  cases a2 <;> rfl
+
+example : unitary.cnot_count_estimate ((2 ^ 4 : Nat) : Int) "qsd" 0 true = (100 : Nat) :=
+  (C10_qsd 4 (by decide) true).trans (congrArg Nat.cast (by decide : unitaryCnots Dec.qsd 4 0 true = 100))
+example : unitaryCnots Dec.qsd 3 0 false = 23 := by decide
+
+/-- **C10 (CSD).** For every `n ≥ 1`, `_cnot_count_estimate(U, "csd")` (`4^n − 2·2^n − 1`; `apply_a2` is
+ignored, as `unitary()` ignores it for CSD) equals the structural count of `build_unitary(U, "csd")`:
+recursive multiplexed cosine-sine splitting down to `UCGate`s on all `n` qubits (`2^(n−1) − 1` CNOTs
+plus a `DiagonalGate` of `2^n − 2`), `UCRY`s of `2^(n−1)`, one `UCRY`-with-`CZ` of `2^(n−1) − 1`. -/
+theorem C10_csd (n : Nat) (hn : 1 ≤ n) (a2 : Bool) :
+    unitary.cnot_count_estimate ((2 ^ n : Nat) : Int) "csd" 0 a2 = (unitaryCnots Dec.csd n 0 a2 : Int) := by
+  rw [est_csd_all n hn a2]
+  rfl
+
+example : unitary.cnot_count_estimate ((2 ^ 4 : Nat) : Int) "csd" 0 true = (223 : Nat) :=
+  (C10_csd 4 (by decide) true).trans (congrArg Nat.cast (by decide : unitaryCnots Dec.csd 4 0 true = 223))
+
+/-- **C10 (isometry mode).** For every `n ≥ 1` and every `iso ≥ 1` (also `iso ≥ n`), with diagonal
+merging (A.2) on — the only way the library uses isometry mode — the recurrence `_cnot_count_iso`
+plus the closing `+1` equals the structural count of `build_unitary(U, "qsd", iso)` after `_apply_a2`:
+the left block of each isometry level is composed inline (its two-qubit block is a plain `unitary`,
+3 CNOTs, invisible to A.2), everything else as in `C10_qsd`. -/
+theorem C10_iso (n iso : Nat) (hn : 1 ≤ n) (hiso : 1 ≤ iso) :
+    unitary.cnot_count_estimate ((2 ^ n : Nat) : Int) "qsd" (iso : Int) true
+      = (unitaryCnots Dec.qsd n iso true : Int) := by
+  rw [est_iso_all n iso hn hiso]
+  rfl
+
+example : unitary.cnot_count_estimate ((2 ^ 4 : Nat) : Int) "qsd" ((2 : Nat) : Int) true = (68 : Nat) :=
+  (C10_iso 4 2 (by decide) (by decide)).trans (congrArg Nat.cast (by decide : unitaryCnots Dec.qsd 4 2 true = 68))
+
+/-- **C10 (column-by-column).** For ALL `n` and `m` (also `m > n`), the double loop
+`_cnot_count_estimate_ccd(n, m)` equals the structural count of the schedule `_ccd` emits: per column
+`k < 2^m` and bit `i < n` an optional multi-controlled gate (a `UCGate` up to diagonal on the
+positions where `k_bin` is `'1'`, `2^c − 1` CNOTs) when `_k_s(k,i) = 0 ∧ _b(k,i+1) ≠ 0`, then a
+`UCGate` up to diagonal with `n−i−1` controls, and the closing `DiagonalGate` (`2^m − 2`) when `m > 0`.
+For `m = n` (full unitary) the real circuit is smaller (qiskit drops controls a multiplexer does not
+depend on): there the estimate is the upper bound the property states — that part is tested, not proved. -/
+theorem C10_ccd (n m : Nat) :
+    isometry.cnot_count_estimate_ccd (n : Int) (m : Int) = (raw (ccdShape n m) : Int) :=
+  est_ccd n m
+
+example : isometry.cnot_count_estimate_ccd ((3 : Nat) : Int) ((1 : Nat) : Int) = (10 : Nat) :=
+  (C10_ccd 3 1).trans (congrArg Nat.cast (by decide : raw (ccdShape 3 1) = 10))
+
+/-- **C10 (low rank).** For every `n`, partition size `1 ≤ p < n`, Schmidt rank `2^e` (`e ≤ min p (n−p)`,
+after the `low_rank` cut), isometry scheme `ccd`/`csd` and unitary scheme `qsd`/`csd`, the phase-by-phase
+sum of `lowrank.cnot_count(…, "estimate")` (singular values, `e` CNOTs, `U`, `Vᵀ`, each dispatched on its
+shape exactly as `_cnots`) equals the sum of the structural counts of the components
+`LowRankInitialize._define_initialize` / `_encode` synthesise, nested state preparations included
+(general position: nested states have full Schmidt rank).  `fuel` bounds the nesting depth; `n + 1` suffices. -/
+theorem C10_lowrank (iso : IsoScheme) (uni : Dec) (fuel n p e : Nat)
+    (hp : 1 ≤ p) (hpn : p < n) (he1 : e ≤ p) (he2 : e ≤ n - p) :
+    lrEst iso uni fuel n p e = (compsCnots (lrComps iso uni fuel n p e) : Int) :=
+  lrEst_eq iso uni fuel n p e (Or.inr ⟨hp, hpn, he1, he2⟩)
+
+example : lrEst .ccd .qsd 5 4 2 2 = (compsCnots (lrComps .ccd .qsd 5 4 2 2) : Int) :=
+  C10_lowrank .ccd .qsd 5 4 2 2 (by decide) (by decide) (by decide) (by decide)
+example : compsCnots (lrComps .ccd .qsd 5 4 2 2) = 9 := by decide
+
+/-- **C10 (bit helpers).** The generated `_a`, `_b`, `_k_s` are `k >> i`, `k mod 2^i` and bit `i` of `k`
+for all `k, i ≥ 0` — the meaning `_g_k`'s schedule and the estimate both rely on. -/
+theorem C10_bits (k i : Nat) :
+    isometry.a (k : Int) (i : Int) = ((k / 2 ^ i : Nat) : Int)
+    ∧ isometry.b (k : Int) (i : Int) = ((k % 2 ^ i : Nat) : Int)
+    ∧ isometry.k_s (k : Int) (i : Int) = (((k / 2 ^ i) % 2 : Nat) : Int) :=
+  ⟨a_eq k i, b_eq k i, k_s_eq k i⟩
+
+example : isometry.k_s ((6 : Nat) : Int) ((1 : Nat) : Int) = ((1 : Nat) : Int) := (C10_bits 6 1).2.2
+
 end Qclib
